@@ -114,7 +114,7 @@ def durations(keys):
 
 
 def points_for_keys(keys, scale):
-    keys = {k: v for k, v in keys.items() if v[0] in ('I', 'F', 'R')}
+    keys = {k: v for k, v in keys.items() if v[0] in ('I', 'F', 'R', 'B')}
     p = pitch(keys, scale)['points']
     p.update(amp_points(keys))
     return {k: sorted({'%d/%d' % (x.numerator, x.denominator) for x in v}) for k, v in p.items()}
@@ -148,7 +148,7 @@ def rest_event(dur, proto):
 
 
 def ev_delta(e):
-    return durations({k: v for k, v in e.items() if not k.startswith('_') and v[0] in ('I', 'F', 'R')})[0]
+    return durations({k: v for k, v in e.items() if not k.startswith('_') and v[0] in ('I', 'F', 'R', 'B')})[0]
 
 
 def events(tree, inputs, limit=64):
@@ -168,9 +168,10 @@ def events(tree, inputs, limit=64):
             cur = events(t, cur, limit)
         return cur
     if k == 'delta':
-        rest = events(tree[2], inputs, limit)
         t = q(tree[1])
-        return ([rest_event(t, inputs[0])] if t > 0 else []) + rest
+        if t > 0:        # the rest consumes one input event, the pattern starts with the next one
+            return [rest_event(t, inputs[0])] + events(tree[2], inputs[1:], limit)
+        return events(tree[2], inputs, limit)
     if k == 'dur':
         total = q(tree[1])
         out, elapsed = [], Fr(0)
@@ -221,11 +222,11 @@ def expected_score(case):
     for e in evs:
         keys = {k: v for k, v in e.items() if not k.startswith('_')}
         rest = any(is_rest(v) for v in keys.values())
-        delta, sustain = durations({k: v for k, v in keys.items() if v[0] in ('I', 'F', 'R')})
+        delta, sustain = durations({k: v for k, v in keys.items() if v[0] in ('I', 'F', 'R', 'B')})
         if not rest:
             instr = e['_mono'][2] if '_mono' in e else (keys['instrument'][1] if 'instrument' in keys else 'default')
             ctl = CONTROLS.get(instr, [])
-            numeric = {k: v for k, v in keys.items() if v[0] in ('I', 'F')}
+            numeric = {k: v for k, v in keys.items() if v[0] in ('I', 'F', 'B')}
             p = pitch(numeric, None)
             if 'freq' in numeric:
                 freq = q(numeric['freq']) * getq(numeric, 'harmonic', 1) + getq(numeric, 'detune', 0)
